@@ -298,6 +298,11 @@ pub trait Property: Sync {
     fn workers(&self, _tier: Tier) -> usize {
         16
     }
+    /// proptest shrink budget (0 for campaigns whose single case is already expensive
+    /// and whose violations carry their own small reproduction)
+    fn max_shrink_iters(&self) -> u32 {
+        4000
+    }
 }
 
 // ------------------------------------------------------------------ worker
@@ -350,7 +355,7 @@ pub fn run_worker(p: &dyn Property, a: &WorkerArgs) -> i32 {
         cfg.cases = mine.min(u32::MAX as u64) as u32;
         cfg.failure_persistence = None;
         cfg.rng_seed = RngSeed::Fixed(seed);
-        cfg.max_shrink_iters = 4000;
+        cfg.max_shrink_iters = p.max_shrink_iters();
         cfg.verbose = 0;
         cfg.max_global_rejects = u32::MAX;
         let mut runner = TestRunner::new(cfg);
